@@ -559,6 +559,36 @@ def coq_lvals(vs) -> str:
     return "Some [" + "; ".join(("VB " + coq_nl(list(v))) if isinstance(v, bytes) else ("VS " + coq_nl(cps(v))) for v in vs) + "]"
 
 
+def float_law(ctx: vlib.Ctx):
+    """the law behind C16_float_inert and the TFloat kind: repr of a finite float is digits . e + - only
+    (evaluated by the Coq predicate float_text_ok) and float(repr(x)) == x (CPython's guarantee, checked here)"""
+    import math
+    import struct
+    rng = ctx.rng
+    n = ctx.budget(400, 4000)
+    fl = [0.0, -0.0, 1.0, -1.0, 0.1, 1e16, 1e-5, 1.5e300, 5e-324, 2.2250738585072014e-308, 1.7976931348623157e308,
+          123456789.123456789, 1e22, 1e23, 0.30000000000000004, float(2**53), -1e-7, 3.141592653589793]
+    while len(fl) < n:
+        x = struct.unpack("<d", struct.pack("<Q", rng.getrandbits(64)))[0]
+        if math.isfinite(x):
+            fl.append(x)
+        fl.append(rng.uniform(-1e6, 1e6))
+    bad_rt = [x for x in fl if float(repr(x)) != x or math.copysign(1, float(repr(x))) != math.copysign(1, x)]
+    cases = [coq_nl(cps(repr(x))) for x in fl]
+    bad, log = vlib.coq_bad_idx("c16_float", "PyStrLit PyLine", "", "Local Open Scope N_scope.\n", cases, "float_text_ok", "list N",
+                                shard=1000, needs=["theories/PyLine.vo"])
+    name = "float-repr-law (float_text_ok (repr x), float(repr x) == x)"
+    if bad is None:
+        ctx.correspondence(name, len(cases), -1, log)
+        ctx.not_shown("law " + name, log)
+    else:
+        nb = len(bad) + len(bad_rt)
+        ctx.correspondence(name, len(cases), nb, "; ".join(repr(fl[i]) for i in bad[:5]) + " | " + "; ".join(map(repr, bad_rt[:5])))
+        if nb:
+            ctx.not_shown("law " + name, "; ".join(repr(fl[i]) for i in bad[:5]) + " | " + "; ".join(map(repr, bad_rt[:5])))
+    ctx.count(n=len(cases))
+
+
 def line_tie(ctx: vlib.Ctx):
     rng = ctx.rng
     n = ctx.budget(700, 6000)
@@ -907,13 +937,15 @@ class A(DataClassDictMixin):
     w: Tuple[str] = (S,)
     e: Any = Evil(S)
     f: Fl = Fl.B
+    fl: float = 1.5e300
+    ft: Tuple[float, str] = (-0.1, S)
     b: Any = S.encode('utf-8', 'surrogatepass')
     class Config(BaseConfig):
         omit_default = True
 def check():
     eq('defaults omitted', lambda: A().to_dict(), {})
-    eq('others kept', lambda: A(EvilStr(S + '~'), (Evil(S + '~'), S), ((S, S), 1), (S + '~',), Evil(S + '~'), Fl.A, b'~').to_dict(),
-       {'g': EvilStr(S + '~'), 't': [Evil(S + '~'), S], 'u': [[S, S], 1], 'w': [S + '~'], 'e': Evil(S + '~'), 'f': 1, 'b': b'~'})
+    eq('others kept', lambda: A(EvilStr(S + '~'), (Evil(S + '~'), S), ((S, S), 1), (S + '~',), Evil(S + '~'), Fl.A, 2.5, (0.1, S), b'~').to_dict(),
+       {'g': EvilStr(S + '~'), 't': [Evil(S + '~'), S], 'u': [[S, S], 1], 'w': [S + '~'], 'e': Evil(S + '~'), 'f': 1, 'fl': 2.5, 'ft': [0.1, S], 'b': b'~'})
     eq('from_dict', lambda: A.from_dict({}), A())
     return OUT
 """
@@ -1129,7 +1161,7 @@ def oracle(ctx: vlib.Ctx, boost: bool = False):
 # the check
 # ---------------------------------------------------------------------------
 
-THEOREMS = ["C16_ident_sites", "C16_ident_site", "C16_line_literal", "C16_line_literal_bytes", "C16_site_line", "C16_render_eval", "C16_sites_full", "C16_site_value", "C16_default_branches_safe", "C16_default_literal_general",
+THEOREMS = ["C16_float_inert", "C16_ident_sites", "C16_ident_site", "C16_line_literal", "C16_line_literal_bytes", "C16_site_line", "C16_render_eval", "C16_sites_full", "C16_site_value", "C16_default_branches_safe", "C16_default_literal_general",
             "C16_default_literal", "C16_repr_tuple_refuted", "C16_repr_lex", "C16_ascii_lex", "C16_repr_bytes_lex", "C16_repr_clean", "C16_raw_plain_lex",
             "C16_raw_refuted", "C16_sites", "C16_site_literal", "C16_site_guarded", "C16_ident_char_inert",
             "C16_site_literal_bytes"]
@@ -1210,6 +1242,7 @@ def run(ctx: vlib.Ctx):
             ctx.not_shown("coqchk VerifProps.C16_strings", log[-800:])
     model_tie(ctx)
     lit_tie(ctx)
+    float_law(ctx)
     broken = bool(ctx.unshown)
     oracle(ctx, boost=broken)
     line_tie(ctx)
